@@ -243,7 +243,7 @@ func renderCommand(amount string, body []*Node, replace bool) string {
 func TestC13(t *testing.T) {
 	seedNote(t)
 	StartWatchdog("C13", 60*time.Second)
-	st := NewStats("C13", "renderings", "capture-free body B (or, in, loops, not in, optional inline recursion) x context (prefix, suffix, inside maybe / at least 0 / at most 2 / counted loops with 1..3 mandatory iterations / alternation) x 1..3 references x 1..3 find or replace commands sharing definitions x text; renderings: written out, {B} = s + calls, set s to pattern B (also through a second pattern); multi-command source vs its commands taken alone; non-trivial = B has a jump-bearing construct and is referenced >= 2 times or from >= 2 commands; distinct by (reference source, text)")
+	st := NewStats("C13", "renderings", "capture-free body B (or, in, loops, not in, optional inline recursion) x context (prefix, suffix, inside maybe / at least 0 / at most 2 / counted loops with 1..3 mandatory iterations / alternation) x 1..3 references x 1..3 find or replace commands sharing definitions x text; renderings: written out, {B} = s + calls, set s to pattern B (also through a second pattern); multi-command source vs its commands taken alone; a definition with a predicate referenced directly vs through one and two further patterns; non-trivial = B has a jump-bearing construct and is referenced >= 2 times or from >= 2 commands; distinct by (reference source, text)")
 	defer st.Write()
 	rapid.Check(t, func(t *rapid.T) {
 		f := Features{Subs: true}
@@ -396,6 +396,32 @@ func TestC13(t *testing.T) {
 				sig = ""
 			}
 			c = c2
+		}
+		if sig == "" && rapid.IntRange(0, 2).Draw(t, "withpred") == 0 {
+			// a definition with a predicate cannot be written out, but naming it once more
+			// (a pattern whose body is just the reference, also two levels deep) must not
+			// change what the commands match: the predicate still decides every use
+			pred := genPredicate(t)
+			pdef := func(name string) string {
+				return strings.Join(Global{Name: name, Body: B.Kids, Pred: pred}.Tokens(), " ")
+			}
+			cmds := strings.Join(setCmds, " ")
+			c3 := EquivCase{Sources: []string{pdef("gp") + " " + cmds, pdef("gq") + " set gp to pattern gq " + cmds, pdef("gr") + " set gq to pattern gr set gp to pattern gq " + cmds},
+				Labels: []string{"predicate on the referenced pattern", "predicate one pattern down", "predicate two patterns down"}, Text: text}
+			st.Count("predicate_cases")
+			SetInflight(func() string { return jsonStr(Failure{Property: "C13", Kind: "equiv", Case: c3}) })
+			var nm3 int
+			sig, what, discard, nm3 = checkEquivCase(c3)
+			ClearInflight()
+			if discard {
+				sig = ""
+			}
+			if nm3 != nm {
+				st.Count("predicate_cases_predicate_rejects_some")
+			}
+			if sig != "" {
+				c = c3
+			}
 		}
 		if sig == "compile-error" {
 			t.Fatalf("HARNESS: %s", what)
